@@ -55,14 +55,15 @@ Qed.
 Lemma finish_incomplete w p : Incomplete (fst (finish_if_complete w p)).
 Proof.
   unfold finish_if_complete. destruct (is_complete p) eqn:E.
-  - unfold publish. cbn [fst]. unfold Incomplete. cbn [w_store pend]. exact I.
+  - destruct (w_failw w); [cbn [fst]; unfold Incomplete, fail_publish; cbn [w_store pend]; exact I|].
+    unfold publish. cbn [fst]. unfold Incomplete. cbn [w_store pend]. exact I.
   - cbn [fst]. unfold Incomplete, with_pending. cbn [w_store pend]. left. exact E.
 Qed.
 
 Lemma step_incomplete q w a : Incomplete w -> Incomplete (fst (step q w a)).
 Proof.
   intros H. unfold step.
-  destruct a as [ops srs|ops srs|cid op pl|cid sr sts| |b|rid|].
+  destruct a as [ops srs|ops srs|cid op pl|cid sr sts| |b|rid| |].
   - destruct (pend (w_store w)) eqn:Ep; cbn [fst]; [exact H|].
     unfold Incomplete. cbn [w_store pend]. apply new_pending_incomplete.
   - destruct (pend (w_store w)) as [p|] eqn:Ep.
@@ -78,6 +79,7 @@ Proof.
   - cbn [fst]. exact H.
   - destruct (find_snap rid (w_sps w)); cbn [fst]; unfold Incomplete; cbn [w_store pend new_store]; exact I.
   - cbn [fst]. unfold Incomplete, with_pending. cbn [w_store pend]. exact I.
+  - cbn [fst]. exact H.
 Qed.
 
 Lemma final_incomplete q acts : forall w, Incomplete w -> Incomplete (final q w acts).
@@ -87,7 +89,7 @@ Proof.
 Qed.
 
 Lemma with_pending_same w : with_pending w (pend (w_store w)) = w.
-Proof. destruct w as [[c p k] f b sp]. reflexivity. Qed.
+Proof. destruct w as [[c p k] f b sp fw]. reflexivity. Qed.
 
 Theorem bad_acks_inert_lemma acts a :
   let w := final repaired init acts in
@@ -97,7 +99,7 @@ Proof.
   intros w Hbad.
   assert (Hinc : Incomplete w) by (apply final_incomplete; exact I).
   unfold Incomplete in Hinc. unfold bad_ack in Hbad.
-  destruct a as [ops srs|ops srs|cid op pl|cid sr sts| |b|rid|]; try contradiction; unfold step.
+  destruct a as [ops srs|ops srs|cid op pl|cid sr sts| |b|rid| |]; try contradiction; unfold step.
   - destruct (pend (w_store w)) as [p|] eqn:Ep.
     + destruct (N.eqb_spec (p_id p) cid) as [E|E]; cbn [negb].
       * destruct Hbad as [Hb|Hb]; [contradiction|].
@@ -158,7 +160,7 @@ Lemma step_counter q w a : ~ is_restart a ->
      i = ckpt_id (w_store w) + 1 /\ ckpt_id (w_store (fst (step q w a))) = i).
 Proof.
   intros Ha. unfold step.
-  destruct a as [ops srs|ops srs|cid op pl|cid sr sts| |b|rid|]; [| | | |exfalso; apply Ha; exact I|cbn [fst snd w_store ckpt_id handed]; split; [lia|discriminate]|exfalso; apply Ha; exact I|cbn [fst snd w_store ckpt_id handed with_pending]; split; [lia|discriminate]].
+  destruct a as [ops srs|ops srs|cid op pl|cid sr sts| |b|rid| |]; [| | | |exfalso; apply Ha; exact I|cbn [fst snd w_store ckpt_id handed]; split; [lia|discriminate]|exfalso; apply Ha; exact I|cbn [fst snd w_store ckpt_id handed with_pending]; split; [lia|discriminate]|cbn [fst snd w_store ckpt_id handed]; split; [lia|discriminate]].
   - destruct (pend (w_store w)); cbn [fst snd w_store ckpt_id handed].
     + split; [lia|discriminate].
     + split; [lia|]. intros i E. inversion E. split; reflexivity.
@@ -168,13 +170,15 @@ Proof.
   - destruct (pend (w_store w)) as [p|]; [|cbn [fst snd handed]; split; [lia|discriminate]].
     destruct (negb (p_id p =? cid)); [cbn [fst snd handed]; split; [lia|discriminate]|].
     unfold finish_if_complete. destruct (is_complete _).
-    + unfold publish. cbn [fst snd w_store ckpt_id handed]. split; [lia|discriminate].
+    + destruct (w_failw w); [cbn [fst snd w_store ckpt_id handed fail_publish]; split; [lia|discriminate]|].
+      unfold publish. cbn [fst snd w_store ckpt_id handed]. split; [lia|discriminate].
     + cbn [fst snd w_store ckpt_id handed with_pending]. split; [lia|discriminate].
   - destruct (pend (w_store w)) as [p|]; [|cbn [fst snd handed]; split; [lia|discriminate]].
     destruct (negb (p_id p =? cid)); [cbn [fst snd handed]; split; [lia|discriminate]|].
     destruct (add_sr q p sr sts); [|cbn [fst snd handed]; split; [lia|discriminate]].
     unfold finish_if_complete. destruct (is_complete _).
-    + unfold publish. cbn [fst snd w_store ckpt_id handed]. split; [lia|discriminate].
+    + destruct (w_failw w); [cbn [fst snd w_store ckpt_id handed fail_publish]; split; [lia|discriminate]|].
+      unfold publish. cbn [fst snd w_store ckpt_id handed]. split; [lia|discriminate].
     + cbn [fst snd w_store ckpt_id handed with_pending]. split; [lia|discriminate].
 Qed.
 
@@ -207,3 +211,15 @@ Proof. vm_compute. reflexivity. Qed.
 Lemma empty_assembly_witness :
   exists pub, run repaired init [ACreate [] []; AAckOp 1 7 0] = [RCreate false 1; RAck false (Some pub)].
 Proof. eexists. vm_compute. reflexivity. Qed.
+
+(* a failed write of the snapshot file: the completing ack publishes nothing - no file, no removal, no notification,
+   no savepoint artifact, the current checkpoint unchanged; only the pending snapshot is gone *)
+Theorem failed_write_inert_lemma w p :
+  is_complete p = true -> w_failw w = true ->
+  let (w', r) := finish_if_complete w p in
+  r = RAckFailed false [] [] (cur_of w) /\
+  w_files w' = w_files w /\ completed (w_store w') = completed (w_store w) /\ w_sps w' = w_sps w /\
+  ckpt_id (w_store w') = ckpt_id (w_store w) /\ pend (w_store w') = None.
+Proof.
+  intros Hc Hf. unfold finish_if_complete. rewrite Hc, Hf. cbn. repeat split.
+Qed.
